@@ -6,4 +6,5 @@ def main : IO UInt32 :=
   runDriver (fun family params lines =>
     match family with
     | "c14" => C14.check params lines
+    | "c14eng" => C14.checkEng params lines
     | _ => { bad := [s!"unknown family {family}"] })
